@@ -5,7 +5,7 @@ From Coq Require Import List Bool Arith ZArith Reals Lra Lia Sorted Permutation.
 From Coq Require Import FunctionalExtensionality.
 Import ListNotations.
 From PS Require Import Num RLemmas Valid ModelKernels ModelFuncs ModelAPI Spec SyncDefs.
-From PS Require Lem_Tau Lem_Isi Lem_IsiProps Lem_Sync Lem_Order Lem_Lists Lem_Pwc.
+From PS Require Lem_Tau Lem_Isi Lem_IsiProps Lem_Sync Lem_Order Lem_Lists Lem_Multi.
 Local Open Scope R_scope.
 Set Implicit Arguments.
 
@@ -144,6 +144,10 @@ Qed.
 
 (* ------------------------------------------------------------------ *)
 (* 5.  spike train order: the single-pass value = sums over the profile *)
+(* [0 < eps] is needed: the fall-back branch of order_impl reconciles (rc = true) and with
+   eps = 0 the reconcile window is open, so spikes on the edges are dropped.  Q instance:
+   a = ([0;5],0,10), b = ([1/2;7],0,10), eps = 0, mt = m = 0:
+   order_impl true = Ok (4,4) but the sums over order_profile_bi true true = Ok (2,3). *)
 
 Theorem order_is_profile_sums : forall eps cy mt m a b ts te, 0 < eps ->
   vtrain ts te a -> vtrain ts te b ->
@@ -224,6 +228,404 @@ Proof.
   pose proof (filter_counts_eq cy mt m HF Hi') as E. cbv zeta in E.
   pose proof (nth_train_vtrain HF Hi') as (_ & Hs & He).
   rewrite E. clear E.
-  unfold nth_train, tr_spikes, tr_start, tr_end, others in *. cbn [fst snd]. rewrite Hs, He.
+  unfold nth_train, tr_spikes, tr_start, tr_end, others in *. cbn [fst snd]. unfold train in *. rewrite Hs, He.
   reflexivity.
 Qed.
+
+(* ------------------------------------------------------------------ *)
+(* 9.  ISI distance: symmetry, range, identity (C07)                    *)
+
+Theorem isi_profile_symmetric : forall eps cy m a b ts te, vtrain ts te a -> vtrain ts te b ->
+  isi_profile_bi ROps eps cy false m a b = isi_profile_bi ROps eps cy false m b a.
+Proof.
+  intros eps cy m a b ts te (_ & Hs & He) (_ & Hs' & He'). unfold isi_profile_bi.
+  rewrite !prep2_false, Hs, He, Hs', He'.
+  destruct cy; rewrite ?Lem_IsiProps.isi_profile_cy_eq; apply Lem_IsiProps.isi_profile_sym.
+Qed.
+
+Theorem isi_distance_symmetric : forall eps cy m iv a b ts te, vtrain ts te a -> vtrain ts te b ->
+  isi_distance_bi ROps eps cy false m iv a b = isi_distance_bi ROps eps cy false m iv b a.
+Proof.
+  intros eps cy m iv a b ts te Va Vb.
+  rewrite (isi_distance_is_profile_average eps cy m iv Va Vb),
+          (isi_distance_is_profile_average eps cy m iv Vb Va),
+          (isi_profile_symmetric eps cy m Va Vb). reflexivity.
+Qed.
+
+(* integral of a piecewise constant function with values in [lo, hi] *)
+Lemma pwc_int_all_bounds : forall xs ys lo hi, ssorted xs -> length xs = S (length ys) ->
+  Forall (fun y => lo <= y <= hi) ys ->
+  lo * (lastF ROps xs - nthF ROps xs 0) <= pwc_int_all ROps xs ys <= hi * (lastF ROps xs - nthF ROps xs 0).
+Proof.
+  induction xs as [|x0 xs IH]; intros ys lo hi Hs Hlen HF; [discriminate|].
+  destruct xs as [|x1 xs'].
+  - destruct ys; [|discriminate]. unfold lastF, nthF. cbn [pwc_int_all last nth]. rops. lra.
+  - destruct ys as [|y ys']; [discriminate|].
+    apply ssorted_cons_inv in Hs as [Hs Hlt]. inversion Hlt as [|? ? H01 _]; subst.
+    inversion HF as [|? ? Hy HF']; subst.
+    specialize (IH ys' lo hi Hs ltac:(cbn [length] in *; lia) HF').
+    change (pwc_int_all ROps (x0 :: x1 :: xs') (y :: ys'))
+      with ((x1 - x0) * y + pwc_int_all ROps (x1 :: xs') ys').
+    change (lastF ROps (x0 :: x1 :: xs')) with (lastF ROps (x1 :: xs')).
+    change (nthF ROps (x0 :: x1 :: xs') 0) with x0.
+    change (nthF ROps (x1 :: xs') 0) with x1 in IH.
+    assert (A : lo * (x1 - x0) <= (x1 - x0) * y <= hi * (x1 - x0)) by (split; nra).
+    lra.
+Qed.
+
+Lemma nthF0_hd (xs : list R) : nthF ROps xs 0 = hd 0 xs.
+Proof. destruct xs; reflexivity. Qed.
+
+Lemma isi_distance_none_value : forall eps cy m a b ts te, vtrain ts te a -> vtrain ts te b ->
+  let p := isi_profile_py ROps (spikes_non_empty ROps a) (spikes_non_empty ROps b) ts te m in
+  isi_distance_bi ROps eps cy false m None a b = Ok (pwc_int_all ROps (fst p) (snd p) / (te - ts)).
+Proof.
+  intros eps cy m a b ts te Va Vb p.
+  rewrite (isi_distance_is_profile_average eps cy m None Va Vb).
+  assert (E : isi_profile_bi ROps eps cy false m a b = p).
+  { destruct cy; [rewrite isi_profile_backends_agree|];
+      unfold isi_profile_bi; rewrite prep2_false;
+      destruct Va as (_ & Hs & He); rewrite Hs, He; reflexivity. }
+  rewrite E.
+  destruct (Lem_IsiProps.isi_profile_wf _ _ _ _ m (sne_valid Va) (sne_valid Vb) (sne_nonempty Va) (sne_nonempty Vb))
+    as (_ & H0 & Hl & _). fold p in H0, Hl.
+  unfold pwc_avrg, avrg_gen, iv_of. rewrite nthF0_hd, H0. unfold lastF. rops. rewrite Hl.
+  destruct p as [xs ys]. reflexivity.
+Qed.
+
+Lemma isi_ratio_range_any : forall m a b, 0 <= a -> 0 <= b -> 0 <= isi_ratio ROps m a b <= 1.
+Proof.
+  intros m a b Ha Hb. destruct (Rle_lt_dec 0 m) as [Hm|Hm].
+  - apply Lem_IsiProps.isi_ratio_range; assumption.
+  - rewrite Lem_IsiProps.isi_ratio_noop; [apply Lem_IsiProps.isi_ratio_range; lra | assumption | assumption |].
+    apply Rle_trans with a; [lra|apply Rle_trans with (Rmax a b); [apply Rmax_l|apply Rle_refl]].
+Qed.
+
+(* values of the ISI profile lie in [0,1] whatever the threshold m *)
+Lemma isi_profile_range_any : forall s1 s2 ts te m, valid ts te s1 -> valid ts te s2 ->
+  Forall (fun y => 0 <= y <= 1) (snd (isi_profile_py ROps s1 s2 ts te m)).
+Proof.
+  intros s1 s2 ts te m V1 V2. rewrite Lem_IsiProps.isi_profile_py_unfold. unfold Lem_IsiProps.isi_prof.
+  destruct (Lem_IsiProps.isi_init_ok _ _ _ V1) as (N1 & S1 & B1 & _).
+  destruct (Lem_IsiProps.isi_init_ok _ _ _ V2) as (N2 & S2 & B2 & _).
+  apply Lem_IsiProps.snd_close_profile_Forall. constructor; [apply isi_ratio_range_any; auto|].
+  apply Forall_map.
+  eapply Forall_impl; [|apply Lem_IsiProps.isi_nu_nonneg; eauto].
+  intros e [H1 H2]. apply isi_ratio_range_any; auto.
+Qed.
+
+Theorem isi_distance_range : forall eps cy m a b ts te d,
+  vtrain ts te a -> vtrain ts te b ->
+  isi_distance_bi ROps eps cy false m None a b = Ok d -> 0 <= d <= 1.
+Proof.
+  intros eps cy m a b ts te d Va Vb E.
+  rewrite (isi_distance_none_value eps cy m Va Vb) in E. cbv zeta in E. injection E as <-.
+  set (p := isi_profile_py ROps (spikes_non_empty ROps a) (spikes_non_empty ROps b) ts te m).
+  destruct (Lem_IsiProps.isi_profile_wf _ _ _ _ m (sne_valid Va) (sne_valid Vb) (sne_nonempty Va) (sne_nonempty Vb))
+    as (Hlen & H0 & Hl & Hs). fold p in Hlen, H0, Hl, Hs.
+  pose proof (isi_profile_range_any m (sne_valid Va) (sne_valid Vb)) as HR. fold p in HR.
+  pose proof (pwc_int_all_bounds Hs Hlen HR) as B.
+  rewrite nthF0_hd, H0 in B. unfold lastF in B. rops. rewrite Hl in B.
+  assert (Hlt : ts < te) by (destruct Va as ((H & _) & _); exact H).
+  split.
+  - apply Rmult_le_reg_r with (te - ts); [lra|]. unfold Rdiv. rewrite Rmult_assoc, Rinv_l by lra. lra.
+  - apply Rmult_le_reg_r with (te - ts); [lra|]. unfold Rdiv. rewrite Rmult_assoc, Rinv_l by lra. lra.
+Qed.
+
+Theorem isi_distance_self : forall eps cy m a ts te, vtrain ts te a ->
+  isi_distance_bi ROps eps cy false m None a a = Ok 0.
+Proof.
+  intros eps cy m a ts te Va.
+  rewrite (isi_distance_none_value eps cy m Va Va). cbv zeta. f_equal.
+  set (p := isi_profile_py ROps (spikes_non_empty ROps a) (spikes_non_empty ROps a) ts te m).
+  destruct (Lem_IsiProps.isi_profile_wf _ _ _ _ m (sne_valid Va) (sne_valid Va) (sne_nonempty Va) (sne_nonempty Va))
+    as (Hlen & _ & _ & Hs). fold p in Hlen, Hs.
+  pose proof (Lem_IsiProps.isi_profile_self (spikes_non_empty ROps a) ts te m) as HR. fold p in HR.
+  assert (HR' : Forall (fun y => 0 <= y <= 0) (snd p)).
+  { eapply Forall_impl; [|exact HR]. cbv beta. intros y ->. lra. }
+  pose proof (pwc_int_all_bounds Hs Hlen HR') as B.
+  assert (Z : pwc_int_all ROps (fst p) (snd p) = 0) by lra.
+  rewrite Z. unfold Rdiv. apply Rmult_0_l.
+Qed.
+
+(* ------------------------------------------------------------------ *)
+(* 10.  SPIKE-sync: symmetry, range, identity (C07)                     *)
+
+Definition ratio1 (cm : R * R) : R := if Reqb (snd cm) 0 then 1 else fst cm / snd cm.
+
+Theorem sync_profile_symmetric : forall eps cy mt m a b ts te, vtrain ts te a -> vtrain ts te b ->
+  spike_sync_profile_bi ROps eps cy false mt m a b = spike_sync_profile_bi ROps eps cy false mt m b a.
+Proof.
+  intros eps cy mt m a b ts te ((_ & S1 & _) & Hs & He) ((_ & S2 & _) & Hs' & He').
+  unfold spike_sync_profile_bi. rewrite !prep2_false, gt_of_eq, Hs, He, Hs', He'.
+  symmetry. apply Lem_Order.sync_profile_sym; assumption.
+Qed.
+
+Theorem sync_symmetric : forall eps cy mt m iv a b ts te, vtrain ts te a -> vtrain ts te b ->
+  spike_sync_bi ROps eps cy false mt m iv a b = spike_sync_bi ROps eps cy false mt m iv b a.
+Proof.
+  intros eps cy mt m iv a b ts te Va Vb.
+  rewrite (sync_value_convention eps cy mt m iv Va Vb), (sync_value_convention eps cy mt m iv Vb Va),
+          (sync_profile_symmetric eps cy mt m Va Vb). reflexivity.
+Qed.
+
+Lemma Forall_firstn {A} (P : A -> Prop) n : forall l, Forall P l -> Forall P (firstn n l).
+Proof.
+  induction n as [|n IH]; intros l H; [constructor|].
+  destruct l as [|x l]; [constructor|]. inversion H; subst. cbn [firstn]. constructor; auto.
+Qed.
+Lemma Forall_skipn {A} (P : A -> Prop) n : forall l, Forall P l -> Forall P (skipn n l).
+Proof.
+  induction n as [|n IH]; intros l H; [exact H|].
+  destruct l as [|x l]; [constructor|]. inversion H; subst. cbn [skipn]. auto.
+Qed.
+Lemma Forall_tl {A} (P : A -> Prop) l : Forall P l -> Forall P (tl l).
+Proof. intros H. destruct l; [constructor|]. inversion H; assumption. Qed.
+
+Lemma frame_profile_Forall (P : R * R * R -> Prop) ts te E :
+  (forall t t' y mp, P (t, y, mp) -> P (t', y, mp)) -> P (ts, 1, 1) ->
+  Forall P E -> Forall P (frame_profile ROps ts te E).
+Proof.
+  intros Ht P1 HF. unfold frame_profile. destruct E as [|e0 r].
+  - constructor; [exact P1|]. constructor; [|constructor]. apply (Ht ts te); exact P1.
+  - set (el := last (e0 :: r) e0).
+    assert (Pel : P el) by (apply Lem_IsiProps.Forall_last_P; [exact HF | inversion HF; assumption]).
+    constructor.
+    + inversion HF; subst. destruct e0 as [[t y] mp]. apply (Ht t ts); assumption.
+    + apply Forall_app. split; [exact HF|]. constructor; [|constructor].
+      destruct el as [[t y] mp]. apply (Ht t te); assumption.
+Qed.
+
+Lemma sums_range (l : list (R * R * R)) : Forall (fun e => 0 <= e_y e <= e_mp e) l ->
+  0 <= sumF ROps (map (@e_y R) l) <= sumF ROps (map (@e_mp R) l).
+Proof.
+  induction 1 as [|e l He _ IH]; cbn [map]; [unfold sumF; cbn; lra|].
+  rewrite !Lem_Order.sumF_cons. cbv beta in He. lra.
+Qed.
+
+Lemma df_integral_range (f : list (R * R * R)) iv cm :
+  Forall (fun e => 0 <= e_y e <= e_mp e) f ->
+  df_integral ROps f (iv_of iv) = Ok cm -> 0 <= fst cm <= snd cm.
+Proof.
+  intros HF E. destruct iv as [[x y]|]; cbn [iv_of df_integral df_integral1] in E.
+  - destruct (negb _) in E; [discriminate|]. injection E as <-.
+    apply sums_range. unfold slice. apply Forall_firstn, Forall_skipn, HF.
+  - injection E as <-. apply sums_range. apply Lem_IsiProps.Forall_removelast, Forall_tl, HF.
+Qed.
+
+Lemma ratio1_range cm : 0 <= fst cm <= snd cm -> 0 <= ratio1 cm <= 1.
+Proof.
+  intros H. unfold ratio1. destruct (Reqb_spec (snd cm) 0) as [E|N]; [lra|].
+  assert (Hp : 0 < snd cm) by lra.
+  split.
+  - apply Rmult_le_reg_r with (snd cm); [lra|]. unfold Rdiv. rewrite Rmult_assoc, Rinv_l by lra. lra.
+  - apply Rmult_le_reg_r with (snd cm); [lra|]. unfold Rdiv. rewrite Rmult_assoc, Rinv_l by lra. lra.
+Qed.
+
+Theorem sync_range : forall eps cy mt m iv a b ts te d, vtrain ts te a -> vtrain ts te b ->
+  spike_sync_bi ROps eps cy false mt m iv a b = Ok d -> 0 <= d <= 1.
+Proof.
+  intros eps cy mt m iv a b ts te d Va Vb E.
+  rewrite (sync_value_convention eps cy mt m iv Va Vb) in E.
+  destruct (df_integral _ _ _) as [cm|] eqn:EI in E; [|discriminate].
+  cbn [rmap] in E. injection E as <-. apply (ratio1_range cm).
+  apply (@df_integral_range _ iv cm) in EI; [exact EI|].
+  unfold spike_sync_profile_bi. rewrite prep2_false, gt_of_eq.
+  destruct Va as (V1 & Hs & He), Vb as (V2 & _ & _). rewrite Hs, He.
+  unfold coincidence_profile_gen. rewrite R_n2. rops.
+  apply frame_profile_Forall.
+  - intros t t' y mp H; exact H.
+  - unfold e_y, e_mp; cbn [fst snd]; lra.
+  - apply Lem_Order.mark_range. apply (Lem_Sync.scan_clean _ _ _ _ mt m V1 V2).
+Qed.
+
+(* a train against itself: every event is a shared time *)
+Lemma coinc_events_self tau : forall (s : list R) k p1 p2, (length s <= k)%nat ->
+  coinc_events ROps tau k p1 s p2 s = map (@Both R) s.
+Proof.
+  induction s as [|x s IH]; intros k p1 p2 Hk.
+  - destruct k; reflexivity.
+  - destruct k as [|k]; [cbn [length] in Hk; lia|].
+    cbn [coinc_events map nltb ROps].
+    destruct (Rltb_spec x x) as [H|_]; [lra|].
+    f_equal. apply IH. cbn [length] in Hk. lia.
+Qed.
+
+Lemma mark_both (v1 v2 vb : R) : forall (s : list R) acc,
+  mark_events ROps v1 v2 vb (map (@Both R) s) acc = rev acc ++ map (fun t => (t, vb, 2)) s.
+Proof.
+  induction s as [|x s IH]; intros acc; cbn [map mark_events]; [rewrite app_nil_r; reflexivity|].
+  rewrite IH. cbn [rev]. rewrite <- app_assoc. reflexivity.
+Qed.
+
+Lemma sums_both (s : list R) :
+  sumF ROps (map (@e_y R) (map (fun t : R => (t, 2, 2)) s))
+  = sumF ROps (map (@e_mp R) (map (fun t : R => (t, 2, 2)) s))
+  /\ 0 <= sumF ROps (map (@e_mp R) (map (fun t : R => (t, 2, 2)) s)).
+Proof.
+  induction s as [|x s [IH1 IH2]]; cbn [map]; [unfold sumF; cbn; lra|].
+  rewrite !Lem_Order.sumF_cons.
+  change (@e_y R (x, 2, 2)) with 2. change (@e_mp R (x, 2, 2)) with 2. lra.
+Qed.
+
+Theorem sync_self : forall eps cy mt m a ts te, vtrain ts te a ->
+  spike_sync_bi ROps eps cy false mt m None a a = Ok 1.
+Proof.
+  intros eps cy mt m a ts te Va.
+  rewrite (sync_value_convention eps cy mt m None Va Va).
+  cbn [iv_of]. rewrite df_integral_none_interior. cbn [rmap]. f_equal.
+  unfold spike_sync_profile_bi. rewrite prep2_false.
+  unfold coincidence_profile_gen. rewrite Lem_Sync.fs_interior.
+  unfold coinc_scan. rewrite coinc_events_self by lia. rewrite mark_both. cbn [rev app].
+  rewrite R_n2. destruct (sums_both (tr_spikes a)) as [E1 E2].
+  cbn [fst snd]. rewrite E1.
+  destruct (Reqb_spec (sumF ROps (map (@e_mp R) (map (fun t : R => (t, 2, 2)) (tr_spikes a)))) 0) as [_|N];
+    [reflexivity|].
+  unfold Rdiv. apply Rinv_r. exact N.
+Qed.
+
+(* ------------------------------------------------------------------ *)
+(* 11.  spike train order: range of the normalised value               *)
+
+Lemma sums_abs_range (l : list (R * R * R)) : Forall (fun e => Rabs (e_y e) <= e_mp e) l ->
+  - sumF ROps (map (@e_mp R) l) <= sumF ROps (map (@e_y R) l) <= sumF ROps (map (@e_mp R) l).
+Proof.
+  induction 1 as [|e l He _ IH]; cbn [map]; [unfold sumF; cbn; lra|].
+  rewrite !Lem_Order.sumF_cons. cbv beta in He. unfold Rabs in He. destruct (Rcase_abs (e_y e)); lra.
+Qed.
+
+Theorem order_range : forall eps cy mt m a b ts te d, 0 < eps ->
+  vtrain ts te a -> vtrain ts te b ->
+  spike_train_order_bi ROps eps cy false true mt m a b = Ok d -> -1 <= d <= 1.
+Proof.
+  intros eps cy mt m a b ts te d Heps Va Vb E.
+  unfold spike_train_order_bi in E. rewrite prep2_false in E.
+  rewrite (order_is_profile_sums cy mt m Heps Va Vb) in E.
+  unfold order_profile_bi in E. rewrite (prep2_true_valid Heps Va Vb), gt_of_eq in E.
+  destruct Va as (V1 & Hs & He), Vb as (V2 & Hs2 & He2). rewrite Hs, He, Hs2, He2 in E.
+  cbn [neqb ROps] in E.
+  destruct (Reqb_spec ts ts) as [_|N]; [|congruence].
+  destruct (Reqb_spec te te) as [_|N]; [|congruence].
+  cbn [negb orb rbind] in E. rewrite df_integral_none_interior in E.
+  unfold order_profile_gen in E. rewrite Lem_Sync.fs_interior in E. rops.
+  pose proof (proj2 (Lem_Order.mark_range _ (Lem_Sync.scan_clean _ _ _ _ mt m V1 V2))) as HR.
+  apply sums_abs_range in HR.
+  cbn [rmap fst snd] in E. injection E as <-.
+  set (c := sumF ROps (map (@e_y R) _)) in *. set (mp := sumF ROps (map (@e_mp R) _)) in *.
+  destruct (Reqb_spec mp 0) as [_|N]; [lra|].
+  assert (Hp : 0 < mp) by lra.
+  split.
+  - apply Rmult_le_reg_r with mp; [lra|]. unfold Rdiv. rewrite Rmult_assoc, Rinv_l by lra. lra.
+  - apply Rmult_le_reg_r with mp; [lra|]. unfold Rdiv. rewrite Rmult_assoc, Rinv_l by lra. lra.
+Qed.
+
+(* ------------------------------------------------------------------ *)
+(* 8.  which spikes the filter keeps                                    *)
+
+Lemma nth_add_combine : forall (a c : list R) k, (k < length a)%nat -> (k < length c)%nat ->
+  nth k (map (fun p : R * R => fst p + snd p) (combine a c)) 0 = nth k a 0 + nth k c 0.
+Proof.
+  induction a as [|x a IH]; intros c k Ha Hc; [cbn [length] in Ha; lia|].
+  destruct c as [|v c]; [cbn [length] in Hc; lia|].
+  destruct k as [|k]; [reflexivity|].
+  cbn [combine map nth]. apply IH; cbn [length] in *; lia.
+Qed.
+
+Lemma nth_fold_add : forall (cs : list (list R)) (acc : list R) k n,
+  length acc = n -> (forall c, In c cs -> length c = n) -> (k < n)%nat ->
+  nth k (fold_left (fun acc c => map (fun p : R * R => fst p + snd p) (combine acc c)) cs acc) 0
+  = nth k acc 0 + sumF ROps (map (fun c => nth k c 0) cs).
+Proof.
+  induction cs as [|c cs IH]; intros acc k n Ha Hc Hk.
+  - cbn [fold_left map]. unfold sumF. cbn. lra.
+  - cbn [fold_left map]. rewrite Lem_Order.sumF_cons.
+    assert (Lc : length c = n) by (apply Hc; left; reflexivity).
+    rewrite (IH _ k n).
+    + rewrite nth_add_combine by lia. lra.
+    + rewrite map_length, combine_length, Ha, Lc. lia.
+    + intros c' H. apply Hc. right; exact H.
+    + exact Hk.
+Qed.
+
+Lemma contexts_from_length : forall (s : list R) prev, length (contexts_from prev s) = length s.
+Proof. induction s as [|x s IH]; intros prev; cbn [contexts_from length]; [|rewrite IH]; reflexivity. Qed.
+
+Lemma single_spec_length s1 s2 ts te mt m : length (single_spec ROps s1 s2 ts te mt m) = length s1.
+Proof. unfold single_spec. rewrite map_length. apply contexts_from_length. Qed.
+
+Lemma In_tagged_l (g : R * R -> bool) (s c : list R) y :
+  In y (map fst (filter g (combine s c))) -> In y s.
+Proof.
+  rewrite in_map_iff. intros ([a v] & <- & H). apply filter_In in H as [H _].
+  apply in_combine_l in H. exact H.
+Qed.
+
+Lemma In_tagged_nth (g : R * R -> bool) : forall (s c : list R) k,
+  NoDup s -> length c = length s -> (k < length s)%nat ->
+  (In (nth k s 0) (map fst (filter g (combine s c))) <-> g (nth k s 0, nth k c 0) = true).
+Proof.
+  induction s as [|x s IH]; intros c k ND Hl Hk; [cbn [length] in Hk; lia|].
+  destruct c as [|v c]; [discriminate|].
+  inversion ND as [|? ? Hx ND']; subst.
+  cbn [combine filter].
+  destruct k as [|k]; cbn [nth].
+  - destruct (g (x, v)) eqn:G.
+    + split; [reflexivity|]. intros _. left; reflexivity.
+    + split; [|discriminate]. intros H. apply In_tagged_l in H. contradiction.
+  - assert (Hk' : (k < length s)%nat) by (cbn [length] in Hk; lia).
+    assert (Hne : nth k s 0 <> x) by (intros E; apply Hx; rewrite <- E; apply nth_In; exact Hk').
+    rewrite <- (IH c k ND' ltac:(cbn [length] in Hl; lia) Hk').
+    destruct (g (x, v)); [|reflexivity].
+    cbn [map fst In]. split; [intros [E|H]; [congruence|exact H] | intros H; right; exact H].
+Qed.
+
+Theorem filter_keep_iff : forall eps cy mt m thr (l : list trainR) ts te i k d,
+  Forall (vtrain ts te) l -> (i < length l)%nat ->
+  let st := nth_train ROps l i in
+  (k < length (tr_spikes st))%nat ->
+  let x := nth k (tr_spikes st) 0 in
+  let cnt := sumF ROps (map (fun t : trainR =>
+                 nth k (single_spec ROps (tr_spikes st) (tr_spikes t) ts te mt m) 0) (others l i)) in
+  let kr := nth i (filter_by_spike_sync ROps eps cy false mt m thr l) d in
+  (In x (tr_spikes (fst kr)) <-> thr * INR (length l - 1) < cnt) /\
+  (In x (tr_spikes (snd kr)) <-> ~ thr * INR (length l - 1) < cnt).
+Proof.
+  intros eps cy mt m thr l ts te i k d HF Hi st Hk x cnt kr.
+  pose proof (nth_train_vtrain HF Hi) as ((_ & S1 & _) & _ & _). fold st in S1.
+  pose proof (Lem_Lists.ssorted_NoDup _ S1) as ND.
+  unfold filter_by_spike_sync in kr. cbv beta iota zeta in kr.
+  unfold kr. rewrite Lem_Multi.nth_map_seq by exact Hi. fold st.
+  cbn [fst snd tr_spikes].
+  pose proof (filter_counts_eq cy mt m HF Hi) as E. cbv zeta in E. fold st in E.
+  unfold tr_spikes in E |- *. rewrite E. clear E.
+  match goal with |- context [combine _ ?c] => set (C := c) end.
+  assert (LC : length C = length (fst (fst st))).
+  { unfold C. rewrite <- Lem_Lists.fold_left_map
+      with (f := fun acc c => map (fun p : R * R => fst p + snd p) (combine acc c))
+           (g := fun t : trainR => single_spec ROps (fst (fst st)) (fst (fst t)) ts te mt m).
+    change (length (sumlists ROps (map (fun t : trainR =>
+              single_spec ROps (fst (fst st)) (fst (fst t)) ts te mt m) (others l i))
+              (length (fst (fst st)))) = length (fst (fst st))).
+    apply Lem_Lists.sumlists_length. intros c Hc. apply in_map_iff in Hc as (t & <- & _).
+    apply single_spec_length. }
+  assert (NC : nth k C 0 = cnt).
+  { unfold C. rewrite <- Lem_Lists.fold_left_map
+      with (f := fun acc c => map (fun p : R * R => fst p + snd p) (combine acc c))
+           (g := fun t : trainR => single_spec ROps (fst (fst st)) (fst (fst t)) ts te mt m).
+    rewrite (@nth_fold_add _ _ k (length (fst (fst st)))).
+    - rewrite nth_repeat, map_map. unfold cnt, tr_spikes. lra.
+    - apply repeat_length.
+    - intros c Hc. apply in_map_iff in Hc as (t & <- & _). apply single_spec_length.
+    - exact Hk. }
+  unfold x, tr_spikes in *. rewrite !(In_tagged_nth _ _ ND LC Hk). cbn [snd]. rewrite NC, Lem_Lists.nofnat_INR.
+  cbn [nmul nltb ROps]. unfold nleb. cbn [nltb ROps].
+  destruct (Rltb_spec (thr * INR (length l - 1)) cnt) as [H|H]; cbn [negb].
+  - split; split; intros; try reflexivity; try assumption; try discriminate; tauto.
+  - split; split; intros; try reflexivity; try assumption; try discriminate; tauto.
+Qed.
+
+(* ------------------------------------------------------------------ *)
+Print Assumptions isi_distance_is_profile_average.
+Print Assumptions sync_values_are_profile_sums.
+Print Assumptions order_is_profile_sums.
+Print Assumptions filter_is_spec.
